@@ -353,6 +353,7 @@ int muggle_channel_init(
 				(muggle_mutex_t*)malloc(sizeof(muggle_mutex_t));
 			if (chan->write_mutex == NULL)
 			{
+				ret = MUGGLE_ERR_MEM_ALLOC;
 				goto channel_init_except;
 			}
 
@@ -398,6 +399,7 @@ int muggle_channel_init(
 			chan->read_mutex = (muggle_mutex_t*)malloc(sizeof(muggle_mutex_t));
 			if (chan->read_mutex == NULL)
 			{
+				ret = MUGGLE_ERR_MEM_ALLOC;
 				goto channel_init_except;
 			}
 
@@ -415,6 +417,7 @@ int muggle_channel_init(
 				sizeof(muggle_condition_variable_t));
 			if (chan->read_cv == NULL)
 			{
+				ret = MUGGLE_ERR_MEM_ALLOC;
 				goto channel_init_except;
 			}
 
